@@ -6,9 +6,8 @@ from ..facts import pp_place
 
 TAPS = 'add31(add31(add31(add31(add31($self.s[0], rot31($self.s[0], 8)), rot31($self.s[4], 20)), rot31($self.s[10], 21)), rot31($self.s[13], 17)), rot31($self.s[15], 15))'
 HELPERS = {
-    'make_u32': 'BitOr(BitOr(BitOr(Shl($a, 24), Shl($b, 16)), Shl($c, 8)), $d)',
     'make_u31': 'BitOr(BitOr(Shl($k, 23), Shl($d, 8)), $iv)',
-    'sbox': 'make_u32((S0[(Shr($x, 24) as usize)] as u32), (S1[(BitAnd(Shr($x, 16), 255) as usize)] as u32), (S0[(BitAnd(Shr($x, 8), 255) as usize)] as u32), (S1[(BitAnd($x, 255) as usize)] as u32))',
+    'sbox': 'BitOr(BitOr(BitOr(Shl((S0[((Shr($x, 24) as u8) as usize)] as u32), 24), Shl((S1[((Shr($x, 16) as u8) as usize)] as u32), 16)), Shl((S0[((Shr($x, 8) as u8) as usize)] as u32), 8)), (S1[(($x as u8) as usize)] as u32))',
     'rot31': 'BitAnd(BitOr(Shl($a, $k), Shr($a, SubWithOverflow(31, $k).0)), 0x7fffffff)',
     'add31': 'wrapping_add(BitAnd(wrapping_add($a, $b), 0x7fffffff), Shr(wrapping_add($a, $b), 31))',
     'l1': 'BitXor(BitXor(BitXor(BitXor($x, rotate_left($x, 2)), rotate_left($x, 10)), rotate_left($x, 18)), rotate_left($x, 24))',
@@ -41,7 +40,21 @@ def lfsr(cx, name, new_cell):
     st = self_stores(fn, cx.F)
     want = [('s[each(Range::Range{0, 15})]', 'phi($self.s[AddWithOverflow(each(Range::Range{0, 15}), 1).0])'), ('s[15]', 'phi(0x7fffffff | %s)' % new_cell)]
     want2 = [(a, b.replace('phi($self.s[AddWithOverflow(each(Range::Range{0, 15}), 1).0])', '$self.s[AddWithOverflow(each(Range::Range{0, 15}), 1).0]')) for a, b in want]
-    cx.add('I-ZUC', name, st in (want, want2), '%s: s16 = %s (0 replaced by 2^31-1), then the register shifts by one cell' % (name, FR.short(new_cell, 120)), fn.loc(), {'got': st})
+    ok = st in (want, want2)
+    if not ok and st == want[1:]:
+        # the shift written as `self.s.copy_within(1..16, 0)`: same move of cells 1..15 down by one, provided the taps
+        # were read before it (every add31/rot31 call dominates it) and the new cell is stored after it
+        P_ = Prov(fn, cx.F, cut_loops=True); cn_ = Canon(fn, P_)
+        cw = [b for b in FR.calls_of(fn, 'copy_within')]
+        dom = fn.dominators()
+        if len(cw) == 1:
+            a_ = [cn_.c(x) for x in G.call_args(fn, P_, cw[0])]
+            taps = [b for b in FR.calls_of(fn, 'add31')] + [b for b in FR.calls_of(fn, 'rot31')]
+            stores15 = [b for b, i, s_ in fn.stmts() if s_['k'] == 'assign' and s_['lhs']['p'] and s_['lhs']['p'][0] == 'deref'
+                        and any(isinstance(p, dict) and ('cidx' in p or 'idx' in p) for p in s_['lhs']['p'])]
+            ok = (a_[1:] == ['Range::Range{1, 16}', '0'] and a_[0].endswith('$self.s') and all(t in dom.get(cw[0], ()) for t in taps)
+                  and all(cw[0] in dom.get(b, ()) for b in stores15))
+    cx.add('I-ZUC', name, ok, '%s: s16 = %s (0 replaced by 2^31-1), then the register shifts by one cell' % (name, FR.short(new_cell, 120)), fn.loc(), {'got': st})
     P = Prov(fn, cx.F, cut_loops=True); cn = Canon(fn, P)
     z = [p for _, p, _, _ in G.bool_switches(fn, P) if p.kind == 'eq' and cn.c(p.args[0]) == new_cell and const_int(p.args[1]) == 0]
     cx.add('I-ZUC', name + '/zero', len(z) == 1, 'the replacement by 2^31-1 is taken exactly when the new cell is 0', fn.loc())
@@ -76,7 +89,7 @@ def run(cx):
         W1 = 'wrapping_add($self.r1, $self.x[1])'; W2 = 'BitXor($self.r2, $self.x[2])'
         want = [('r1', 'sbox(l1(BitOr(Shl(%s, 16), Shr(%s, 16))))' % (W1, W2)), ('r2', 'sbox(l2(BitOr(Shl(%s, 16), Shr(%s, 16))))' % (W2, W1))]
         r = [I.shorten_vars(x[1]) for x in I.returns(ff, F)]
-        cx.add('I-ZUC', 'f', st == want and r == ['wrapping_add(BitXor($self.x[0], $self.r1), $self.r2)'],
+        cx.add('I-ZUC', 'f', sorted(st) == sorted(want) and r == ['wrapping_add(BitXor($self.x[0], $self.r1), $self.r2)'],
                'W = (X0 ^ R1) + R2; R1 = S(L1(W1L||W2H)), R2 = S(L2(W2L||W1H)) with W1 = R1 + X1, W2 = R2 ^ X2 (old registers)', ff.loc(), {'stores': st, 'ret': r})
     # ---- initialisation
     nw = cx.fn('<impl ZUC>::new', 'I-ZUC')
@@ -86,7 +99,15 @@ def run(cx):
         E16 = 'each(Range::Range{0, 16})'
         cx.add('I-ZUC', 'new/load', st == [(E16, 'make_u31(($k[%s] as u32), D[%s], ($iv[%s] as u32))' % (E16, E16, E16))], 's_i = k_i || d_i || iv_i for i in 0..16', nw.loc())
         ag = G.aggr_blocks(nw, 'ZUC::ZUC')
-        ok = len(ag) == 1 and [I.shorten_vars(cn.c(norm(P.operand(o, ag[0][0], ag[0][1])))) for o in ag[0][2]['ops']] == ['s', '0', '0', 'repeat{0}']
+        ops_ = [I.shorten_vars(cn.c(norm(P.operand(o, ag[0][0], ag[0][1])))) for o in ag[0][2]['ops']] if len(ag) == 1 else []
+        if ops_:
+            # the LFSR field is the array the load loop filled (stores through s[i] or through s.iter_mut() elements)
+            from ..builder import root_local as _root
+            o0 = ag[0][2]['ops'][0]
+            rl_ = _root(P, o0, ag[0][0], ag[0][1]) if o0['k'] in ('copy', 'move') else None
+            if rl_ is not None and nw.locals[rl_].get('name') == 's':
+                ops_[0] = 's'
+        ok = ops_ == ['s', '0', '0', 'repeat{0}']
         cx.add('I-ZUC', 'new/regs', ok, 'R1 = R2 = 0 at the start of initialisation', nw.loc())
         lp = I.find_loop(nw, P, cn, 'Range::Range{0, 32}')
         seq = []
@@ -96,7 +117,9 @@ def run(cx):
                 t = nw.blocks[b]['term']
                 if t['k'] == 'call' and t['fn']['k'] == 'def' and t['fn']['local']:
                     seq.append((last(t['fn']['name']), [I.shorten_vars(cn.c(a))[:60] for a in G.call_args(nw, P, b)][1:]))
-        want = [('bit_reconstruction', []), ('f', []), ('lfsr_with_initialization_mode', ['Shr(f(ZUC::ZUC{s, 0, 0, repeat{0}}), 1)'])]
+        import re as _re
+        seq = [(n_, [_re.sub(r'ZUC::ZUC\{[^{}]*(\{[^{}]*\}[^{}]*)*\}', 'ZUC', a_) for a_ in as_]) for n_, as_ in seq]
+        want = [('bit_reconstruction', []), ('f', []), ('lfsr_with_initialization_mode', ['Shr(f(ZUC), 1)'])]
         cx.add('I-ZUC', 'new/init-rounds', seq == want, '32 initialisation rounds of BR; W = F(); LFSRWithInitialisationMode(W >> 1): %s' % seq, nw.loc())
         after = []
         if lp:
